@@ -256,20 +256,27 @@ func eval(c Case) (problems []string, key string) {
 	if after != nil && rerr == nil && (after.Applied != after.Total || after.Applied != len(c.New)) {
 		bad("after a successful resume the revision says applied=%d total=%d for a file of %d statements", after.Applied, after.Total, len(c.New))
 		if len(c.New) != c.N {
-			key = "resume-with-different-statement-count-keeps-old-total"
+			key = totalKey(c)
 		}
 	}
 	if len(problems) > 0 && key == "" && len(c.New) != c.N {
-		key = "resume-with-different-statement-count-keeps-old-total"
+		key = totalKey(c)
 	}
 	return
+}
+
+func totalKey(c Case) string {
+	if c.K == 0 {
+		return "resume-after-first-statement-failure-keeps-old-total"
+	}
+	return "resume-with-different-statement-count-keeps-old-total"
 }
 
 func cases(tier string) []Case {
 	maxN := 5
 	var cs []Case
 	for n := 2; n <= maxN; n++ {
-		for k := 1; k < n; k++ {
+		for k := 0; k < n; k++ {
 			for layout := 0; layout <= 1; layout++ {
 				for mode := 0; mode <= 2; mode++ {
 					gen := 0
@@ -291,7 +298,7 @@ func cases(tier string) []Case {
 }
 
 func Run(r *report.Run) {
-	r.Rule = "files of n<=5 distinct statements x progress k in 1..n-1 x origin of the partial revision {statement k+1 failed; process died before statement k+1 (no error recorded); statement 1 failed, re-run, then died before statement k+1} (revision always produced by real runs) x layout {only file, middle of 3 files} x every single edit (change/insert/delete/swap at every index, truncate to every length; thorough: every pair of edits for n<=4), re-hashed, then ExecuteN on the real Executor; plus a CLI slice on a real SQLite file: n in 2..4 x k x {no / `migrate set` on the partially applied version} x edit {none, repair, tail, prefix, truncate, insert at front} with the partial revision made by the real `migrate apply --tx-mode none`: same rule, read from exit status, output and a journal table, and no panic; non-trivial = case whose edit changes the statement list; distinct = (n,k,layout,new list)"
+	r.Rule = "files of n<=5 distinct statements x progress k in 0..n-1 (0: the first statement failed) x origin of the partial revision {statement k+1 failed; process died before statement k+1 (no error recorded); statement 1 failed, re-run, then died before statement k+1} (revision always produced by real runs) x layout {only file, middle of 3 files} x every single edit (change/insert/delete/swap at every index, truncate to every length; thorough: every pair of edits for n<=4), re-hashed, then ExecuteN on the real Executor; plus a CLI slice on a real SQLite file: n in 2..4 x k x {no / `migrate set` on the partially applied version} x edit {none, repair, tail, prefix, truncate, insert at front} with the partial revision made by the real `migrate apply --tx-mode none`: same rule, read from exit status, output and a journal table, and no panic; non-trivial = case whose edit changes the statement list; distinct = (n,k,layout,new list)"
 	r.Assumptions = []string{
 		"'history untouched' compares Applied, Total, PartialHashes, Error, ErrorStmt, Hash, Type; ExecutedAt/ExecutionTime/OperatorVersion are rewritten by design on every write",
 		"statements are distinct tokens; the recording driver never fails during the second run",
